@@ -234,8 +234,12 @@ fn end_harness(version: u16, min_len: u8, max_ops: u8, addr_bits: u32) {
     let units: u64 = kani::any();
     kani::assume(addr_bits >= 64 || units < (1u64 << (addr_bits & 63)));
     let end = units * min_len as u64;
-    kani::assume(end >= prev.address_offset);
-    // `end_sequence` uses the current row's op_index; callers leave it at the last generated row's
+    // `end_sequence` uses the current row's op_index ("only the address_offset and op_index fields of the current row
+    // are used"): the end of the sequence is not before the last row
+    let oi: u8 = kani::any();
+    kani::assume(oi < max_ops);
+    kani::assume(end > prev.address_offset || (end == prev.address_offset && oi as u64 >= prev.op_index));
+    p.row().op_index = oi as u64;
     p.end_sequence(end);
     let n = hk::instruction_count(&p);
     assert!(n == 1 || n == 2);
@@ -248,13 +252,13 @@ fn end_harness(version: u16, min_len: u8, max_ops: u8, addr_bits: u32) {
     assert!(hk::instruction(&p, n - 1) == VI::EndSequence);
     assert!(m.step(&h, MIns::EndSequence) == MOut::Ok(true));
     assert!(m.address == end && m.end_sequence, "end of sequence address");
+    kani::cover!(end == prev.address_offset && oi as u64 > prev.op_index);
     // only the address is specified for the end-of-sequence row; other registers keep the last row's values
     let mut want = mrow(&prev, version);
     want.address = end;
-    want.op_index = m.op_index;
+    want.op_index = oi as u64;
     want.end_sequence = true;
-    assert!(m == want);
-    assert!(m.op_index == prev.op_index);
+    assert!(m == want, "end-of-sequence row");
     // the writer starts the next sequence from the initial registers, like the reader
     let (pr, cur) = hk::rows(&p);
     assert!(!p.in_sequence());
